@@ -417,10 +417,11 @@ Lemma step_dense_mdotm y w k a b n m p :
   mdims w (XD k) = (n, p) -> mdims w a = (n, m) -> mdims w b = (m, p) ->
   0 < n -> 0 < m -> 0 < p ->
   (forall kb, b = XS kb -> WWf (sw (b3 w))) ->
+  rab_alias k a b = false ->      (* not r.MdotM(r, r): see mdotm_rr_refuted (known finding F-MDOTM-RR) *)
   let r := step4 y w (MdotM (XD k) a b) in
   ok_out4 r /\ same_but_dm w (fst r) k /\ mabs (fst r) (XD k) = matmul (mabs w a) (mabs w b) n m p.
 Proof.
-  intros Hok Ha Hb Dk Da Db Hn Hm Hp HW. cbn [step4].
+  intros Hok Ha Hb Dk Da Db Hn Hm Hp HW Hal. cbn [step4].
   rewrite Dk, Da, Db, !Z.eqb_refl. cbn [andb negb].
   destruct (sloc_spec w (XD k)) as (w1 & lr & S1 & B1 & M1 & N1); auto.
   { rewrite Dk. simpl. nia. }
@@ -430,7 +431,7 @@ Proof.
   subst w1. rewrite S1.
   destruct (sloc_spec w b) as (w2 & lb & S2 & B2 & M2 & N2); auto.
   { rewrite Db. simpl. nia. }
-  rewrite S2. unfold okm. cbn [fst snd].
+  rewrite S2, Hal. unfold okm. cbn [fst snd].
   split; [reflexivity|].
   destruct (dense_prep w k Hok) as (d0 & r0 & c0 & Hg & Hd & Hl).
   rewrite Dk in Hd. inversion Hd. subst r0 c0.
